@@ -213,23 +213,24 @@ def _m_strchr(it, ctx, n, args):
 def _m_strto(it, ctx, n, args):
     a = _bytes_at(args[0])
     base = args[2] if len(args) > 2 else 10
-    if a is None or not isinstance(base, int) or (len(args) > 1 and not (isinstance(args[1], int) and args[1] == 0)):
+    endp = args[1] if len(args) > 1 else 0
+    if a is None or not isinstance(base, int) or not (isinstance(endp, _Ref) or (isinstance(endp, int) and endp == 0)):
         return NotImplemented
-    s = a.lstrip(' \t')
+    ws = len(a) - len(a.lstrip(' \t\n'))
     d = ''
-    for c in s:
+    for c in a[ws:]:
         if c.isdigit():
             d += c
         else:
             break
-    if not d:
-        return 0
     if base == 0:
         base = 8 if d.startswith('0') and len(d) > 1 else 10
-    try:
-        return int(d, base)
-    except ValueError:
+    if base not in (8, 10) or (base == 8 and any(c in '89' for c in d)):
         return NotImplemented
+    if isinstance(endp, _Ref):
+        k = ws + len(d) if d else 0
+        endp.place.set(it, args[0][k:] if isinstance(args[0], str) else args[0].shift(k))
+    return int(d, base) if d else 0
 
 
 def _m_isdigit(it, ctx, n, args):
@@ -352,3 +353,17 @@ def r186_directive_end(P, u, rep):
                    where=W, facts={'contents': w.text, 'stored': r[1], 'expected': want})
     if done < 20:
         rep.undecided(RULE, base + ':liveness', 'only %d of %d concrete directives decided' % (done, 2 * len(CASES)), where=W)
+
+
+def multi_line_directive(P, u, fn='read_line_marker'):
+    """does fn number from the line a directive ENDS on when a block comment behind the operand holds new-lines?
+    True / False (it numbers from another line) / None (the concrete run is not conclusive)"""
+    try:
+        w0 = World(u, LEAD, '\nx\n')
+        w1 = World(u, LEAD, ' /* a\nb\n */\nx\n')
+        r0, r1 = _run(P, u, w0, fn), _run(P, u, w1, fn)
+    except (Unsupported, AnalysisBroken, KeyError, TypeError, AttributeError, IndexError, ValueError):
+        return None
+    if r0[0] != 'delta' or r1[0] != 'delta':
+        return None
+    return r0[1] - r1[1] == w1.end_line - w0.end_line
